@@ -1,6 +1,6 @@
 SPECIFICATION Spec
 CONSTANTS
-  MaxStmts = 3
+  MaxStmts = 4
   MaxDepth = 3
   MaxUnits = 1
   MaxVar = 1
@@ -22,7 +22,7 @@ CONSTANTS
   InsSet <- InsSmall
   MinEdits = 0
   Randomised = FALSE
-  DumpMod = 4
+  DumpMod = 12
   NRepl = 17
   RichOnly = FALSE
   NeedStruct = FALSE
